@@ -1,0 +1,32 @@
+//go:build verif
+
+package m
+
+import "time"
+
+// VerifEntries returns a copy of all routing table entries in table order.
+func (rt *RoutingTable) VerifEntries() []RoutingTableEntry {
+	rt.lock.RLock()
+	defer rt.lock.RUnlock()
+	out := make([]RoutingTableEntry, 0, len(rt.entries))
+	for _, e := range rt.entries {
+		out = append(out, *e)
+	}
+	return out
+}
+
+// VerifAge moves the expiry of every non-peer entry into the past by d (time passes).
+func (rt *RoutingTable) VerifAge(d time.Duration) {
+	rt.lock.Lock()
+	defer rt.lock.Unlock()
+	for _, e := range rt.entries {
+		if e.Source != RouteSourcePeer {
+			c := *e
+			c.Expires = c.Expires.Add(-d)
+			*e = c
+		}
+	}
+}
+
+// VerifConfig returns the routable prefix configuration of the table.
+func (rt *RoutingTable) VerifConfig() RoutingTableConfig { return rt.cfg }
